@@ -99,7 +99,14 @@ class Run:
     def undecide(self, what: str) -> None:
         self.undecided.append(what)
 
-    def add_bounded(self, name: str, bound: str, evaluations: int, ok: bool, detail: str = "") -> None:
+    def add_bounded(self, name: str, bound: str, evaluations: int, ok: bool, detail: str = "", failed_obligations: typing.Optional[typing.Sequence[str]] = None) -> None:
+        """`failed_obligations`: names of the obligations the stand-in's counterexamples are reported under (run.fail); when
+        every one of them is a listed known finding the stand-in does not raise an alarm of its own."""
+        if not ok and failed_obligations:
+            known = [k for k in load_known() if k["property"] == self.prop]
+            if all(any(k["obligation"] == n or (k["obligation"].endswith("*") and n.startswith(k["obligation"][:-1])) for k in known) for n in failed_obligations):
+                ok = True
+                detail = "only listed known findings: " + detail
         self.bounded.append({"name": name, "bound": bound, "evaluations": evaluations, "ok": ok, "detail": detail})
 
     # -- finish ------------------------------------------------------------------------------
